@@ -62,11 +62,11 @@ type Case struct {
 }
 
 type injector struct {
-	n       atomic.Int64
-	fail    map[int64]bool
-	enabled atomic.Bool
-	mu      sync.Mutex
-	hit     []string
+	n              atomic.Int64
+	fail           map[int64]bool
+	enabled        atomic.Bool
+	mu             sync.Mutex
+	hit            []string
 	skippedDirSync int
 }
 
@@ -127,6 +127,44 @@ type cand struct {
 	ops []int
 }
 
+// resilientScan looks every key of the universe (and the padding key) up with SeekGE + ValueAndErr on
+// ONE iterator; an error (positioning or value read) is followed by one more SeekGE of the same key
+// on the same iterator. ok=false: an error persisted (an error answer is allowed).
+func resilientScan(d *pebble.DB) (state string, ok bool) {
+	it, err := d.NewIter(nil)
+	if err != nil {
+		return "", false
+	}
+	defer it.Close()
+	var kvs []hx.KV
+	for _, k := range append(append([]string{}, universe...), hx.PadKey) {
+		done := false
+		for attempt := 0; attempt < 2 && !done; attempt++ {
+			valid := it.SeekGE([]byte(k))
+			if err := it.Error(); err != nil {
+				continue
+			}
+			if !valid || string(it.Key()) != k {
+				done = true // absent
+				break
+			}
+			v, err := it.ValueAndErr()
+			if err != nil {
+				continue
+			}
+			kvs = append(kvs, hx.KV{K: k, V: hx.Val(v)})
+			done = true
+		}
+		if !done {
+			return "", false
+		}
+	}
+	if it.Error() != nil {
+		return "", false
+	}
+	return hx.PointsString(kvs), true
+}
+
 func runOnce(cfg hx.Config, hist []hx.Op, faults []int, verbose bool) (out outcome) {
 	mem := vfs.NewCrashableMem()
 	in := &injector{fail: map[int64]bool{}}
@@ -152,6 +190,25 @@ func runOnce(cfg hx.Config, hist []hx.Op, faults []int, verbose bool) (out outco
 		}
 	}
 	checkRead := func(i int) {
+		// one iterator that keeps going after errors: every key is looked up with SeekGE and its
+		// value read; after an error the SAME iterator re-seeks the same key once. What it reports
+		// without a final error must be a state the model allows.
+		if g, ok := resilientScan(x.D); ok {
+			found := false
+			for _, c := range cands {
+				if hx.PointsString(c.m.Points()) == g {
+					found = true
+				}
+			}
+			if !found {
+				var w []string
+				for _, c := range cands {
+					w = append(w, "{"+hx.PointsString(c.m.Points())+"}")
+				}
+				violate("wrong-read-result", fmt.Sprintf("step %d: an iterator that re-seeks after an error reported {%s} and no error; allowed: %v", i, g, w))
+				return
+			}
+		}
 		got, err := hx.ObservePoints(x.D, universe)
 		if err != nil {
 			if strings.Contains(err.Error(), "differ") || strings.Contains(err.Error(), "but scan has") {
